@@ -46,6 +46,7 @@ Rules applied to copied text (all line preserving, all counted in the report):
   R21 `for x in E.trigger_events(ARGS) {` -> `let r21_v = E.trigger_events_vec(ARGS); for x in r21_it: r21_v.iter() {`
       (iterating over the collected results; the stand-in `trigger_events_vec` returns the actions as a Vec).
   R24 `for x in E.iter_mut() {` / `for (i, x) in E.iter_mut().enumerate() {` -> index loop with `let x = &mut E[i]`.
+  R29 `for x in E.iter().flatten() {` -> index loop whose body runs under `if let Some(x) = &E[i]`.
   R26 `assert!(c, "msg")` -> `crate::shim::rt_assert(c)` (requires c).  R27 `panic!("msg")` -> `return
       crate::shim::rt_unreachable()` (requires false).  Both turn "this never fires" into a proof obligation.
   R22 `debug!(..);` statements are removed.   R23 `x.clone()` -> `x.clone_of()` (result equals the receiver).
@@ -530,6 +531,7 @@ class Extractor:
             if mte:
                 r21_start[src.line_of(ks)] = (n, ks, bo_, mte)
                 loop_open_ln.pop(src.line_of(bo_), None)
+        r29_close = set()
         drop_tail = fo.get("drop_tail")
         tail_dropped = False
         ovr = self.shim_overrides(src, p_open, p_close, rec, name, fo.get("floats")) if fo.get("shims") else {}
@@ -608,13 +610,16 @@ class Extractor:
                 hdr = src.src[ks:bo]
                 mfor = re.match(r"for\s+(\w+)\s+in\s+(.+?)\.\.(.+?)\s*$", hdr, re.S)
                 mzip = re.match(r"for\s*\(\s*(\w+)\s*,\s*(\w+)\s*\)\s+in\s+(.+?)\.iter_mut\(\)\.zip\((.+?)\.iter\(\)\)\s*$", hdr, re.S)
+                mflat = re.match(r"for\s+(\w+)\s+in\s+(.+?)\.iter\(\)\.flatten\(\)\s*$", hdr, re.S)
                 mitm = re.match(r"for\s+(\w+)\s+in\s+(.+?)\.iter_mut\(\)\s*$", hdr, re.S)
                 mitme = re.match(r"for\s*\(\s*(\w+)\s*,\s*(\w+)\s*\)\s+in\s+(.+?)\.iter_mut\(\)\.enumerate\(\)\s*$", hdr, re.S)
                 menum = re.match(r"for\s*\(\s*(\w+)\s*,\s*(\w+)\s*\)\s+in\s+(.+?)\.iter\(\)\.enumerate\(\)\s*$", hdr, re.S)
                 # I4 placeholders that make loop annotations independent of the loop's surface form:
                 #   $i = iterations completed (at the loop head), $k = index of the element the body is working
                 #   on, $n = the bound
-                if mitm or mitme:
+                if mflat:
+                    ph = {"$i": "r29_i", "$k": "(r29_i - 1)", "$n": "r29_n"}
+                elif mitm or mitme:
                     ph = {"$i": "r24_i", "$k": "(r24_i - 1)", "$n": "r24_n"}
                 elif mzip:
                     ph = {"$i": "r16_i", "$k": "(r16_i - 1)", "$n": "r16_n"}
@@ -666,6 +671,28 @@ class Extractor:
                     for il in (decr or ["%s    decreases r7_n - r7_i" % ind]):
                         self.out.emit(il)
                     self.out.emit_src(src, k, "%s{ let %s = r7_i; r7_i = r7_i + 1;" % (ind, x))
+                    begin_n = n
+                elif mflat:
+                    # R29: desugar `for x in E.iter().flatten() {` (E a slice of Options): index loop, the body runs for
+                    # the `Some` entries
+                    if src.line_of(ks) != k:
+                        raise LostAnchor("R29: multi-line for header in fn %s" % name)
+                    ind = l[:len(l) - len(l.lstrip())]
+                    xv, ex = mflat.group(1), mflat.group(2).strip()
+                    self.hit("R29.for_flatten")
+                    rec["edits"].append("R29: `%s` desugared to while + if let" % hdr.strip())
+                    self.out.emit_src(src, k, "%slet mut r29_i: usize = 0; let r29_n: usize = %s.len();" % (ind, ex))
+                    self.out.emit_src(src, k, "%swhile r29_i < r29_n" % ind)
+                    body = [il for il in inv if il.strip() and not il.strip().startswith("invariant")
+                            and not il.strip().startswith("decreases")]
+                    self.out.emit("%s    invariant" % ind)
+                    self.out.emit("%s        r29_i <= r29_n, r29_n == %s.len()," % (ind, ex))
+                    for il in body:
+                        self.out.emit(il)
+                        self.hit("I4.contract_lines")
+                    self.out.emit("%s    decreases r29_n - r29_i" % ind)
+                    self.out.emit_src(src, k, "%s{ let r29_o = &%s[r29_i]; r29_i = r29_i + 1; if let Some(%s) = r29_o {" % (ind, ex, xv))
+                    r29_close.add(src.line_of(match_close(src.code, bo)))
                     begin_n = n
                 elif mitm or mitme:
                     # R24: desugar `for x in E.iter_mut() {` / `for (i, x) in E.iter_mut().enumerate() {`
@@ -755,6 +782,10 @@ class Extractor:
                     self.out.emit_src(src, k, " " * col + l[col:])
                     begin_n = n
             else:
+                if k in r29_close:
+                    if src.lines[k].strip() != "}":
+                        raise LostAnchor("R29: loop of fn %s does not close on its own line" % name)
+                    l = l + " }"
                 self.out.emit_src(src, k, l if k == open_ln else self.rewrite_line(l, copts))
             if begin_n is not None:
                 # I4: ghost lines placed at the very beginning of the loop body
